@@ -14,7 +14,7 @@
                  TabRewriter                                         (src/style.rs:432-439),
                  WideElement::expand                                 (src/style.rs:447-487),
                  Template::set_tab_width                             (src/style.rs:645-651),
-                 BarDisplay / RepeatedStringDisplay                  (src/style.rs:695-727),
+                 BarDisplay / RepeatedStringDisplay                  (src/style.rs:698-730),
                  PaddedStringDisplay::fmt                            (src/style.rs:738-773).
     Line numbers refer to /repo at commit 6ff82af.
 
@@ -287,7 +287,7 @@ Record rctx := mkrctx { c_env : env; c_d : N; c_tw : N; c_keys : keymap; c_gl : 
 
 Definition rep (x : text) (n : N) : text := N.iter n (app x) [].
 
-(* BarDisplay::fmt, style.rs:702-712, for the geometry [geo]; `rest` is always a StyledObject
+(* BarDisplay::fmt, style.rs:705-715, for the geometry [geo]; `rest` is always a StyledObject
    (`alt_style.unwrap_or(&Style::new())`, :232) *)
 Definition bar_text (g : glyphs) (geo : N * option N * N) (alt : option sty) : text :=
   let '(filled, cur, bg) := geo in
